@@ -86,9 +86,10 @@ def mk_sampler_obj(I, cls="SMCSampler", extra=None):
     return Obj(cls, f)
 
 
-def tempered_expected(beta, row_z, mcmc=False):
-    x = TINV_X(row_z)
-    j = X.fin(TINV_J(row_z))
+def tempered_expected(beta, row_z, mcmc=False, identity=False):
+    # identity: the sampler was built without preconditioning (the library's own IdentityTransform: x = z, log-Jacobian 0)
+    x = row_z if identity else TINV_X(row_z)
+    j = X.fin(z3.RealVal(0)) if identity else X.fin(TINV_J(row_z))
     if mcmc:
         return X.xadd(X.xadd(L_ROW(x), PI_ROW(x)), j)
     v = X.xadd(X.xadd(X.xscale(1 - beta, Q_ROW(x)), X.xscale(beta, X.xadd(L_ROW(x), PI_ROW(x)))), j)
@@ -103,14 +104,20 @@ class SMCLogProb(Contract):
            "(x, logJ) = preconditioning_transform.inverse(z); never NaN; zero prior and beta > 0 => -inf; likelihood called once on samples "
            "that carry the prior of exactly those points; evaluation counter += len(z)")
 
+    def shapes(self):
+        return [{"precond": "stub"}, {"precond": "identity"}]
+
     def setup(self, I, shape):
         s = mk_sampler_obj(I, self.cls)
+        if shape["precond"] == "identity":
+            # a sampler built with preconditioning="none": the library's own IdentityTransform (its real methods are executed)
+            s.f["preconditioning_transform"] = Obj("IdentityTransform", {"xp": s.f["xp"], "dtype": s.f["dtype"]})
         n = z3.Int("n_z")
         I.path.assume(n >= 1)
         z = base_arr("z", "row", n)
         beta = z3.Real("beta")
         I.path.assume(z3.And(beta > 0, beta <= 1))
-        return Pre(s, [z, R(beta)], ghost={"s": s, "z": z, "beta": beta, "n": n, "evals0": s.f["n_likelihood_evaluations"]})
+        return Pre(s, [z, R(beta)], ghost={"s": s, "z": z, "beta": beta, "n": n, "evals0": s.f["n_likelihood_evaluations"], "identity": shape["precond"] == "identity"})
 
     def post(self, I, pre, r):
         p, g = I.path, pre.ghost
@@ -122,11 +129,12 @@ class SMCLogProb(Contract):
         i = z3.Int(fresh("row"))
         inb = z3.And(i >= 0, i < g["n"])
         p.prove(r.n == g["n"], f"{q}:C05:one value per input point")
-        exp = X.nan_to_ninf(tempered_expected(beta, z.at(i)))
+        ident = g.get("identity", False)
+        exp = X.nan_to_ninf(tempered_expected(beta, z.at(i), identity=ident))
         p.prove(z3.Implies(inb, r.at(i) == exp),
                 f"{q}:C05:result[i] == NaN->-inf( (1-beta) q(x_i) + beta (L(x_i) + pi(x_i)) + log|det dx/dz|_i ), x = inverse(z)")
         p.prove(z3.Implies(inb, z3.Not(X.is_nan(r.at(i)))), f"{q}:C05:an undefined (NaN) tempered value is never handed to the kernel")
-        xi = TINV_X(z.at(i))
+        xi = z.at(i) if ident else TINV_X(z.at(i))
         p.prove(z3.Implies(z3.And(inb, PI_ROW(xi) == X.NINF), r.at(i) == X.NINF), f"{q}:C05:zero prior gives log-density -inf, never a finite number")
         self.count_obligations(I, pre)
 
@@ -164,12 +172,17 @@ class MCMCLogProb(Contract):
     properties = ("C05", "C17")
     doc = "result[i] == L(x_i) + pi(x_i) + logJ_i with (x, logJ) = inverse(z): beta = 1, no proposal term; zero prior never gives a finite value"
 
+    def shapes(self):
+        return [{"precond": "stub"}, {"precond": "identity"}]
+
     def setup(self, I, shape):
         s = mk_sampler_obj(I, "MCMCSampler")
+        if shape["precond"] == "identity":
+            s.f["preconditioning_transform"] = Obj("IdentityTransform", {"xp": s.f["xp"], "dtype": s.f["dtype"]})
         n = z3.Int("n_z")
         I.path.assume(n >= 1)
         z = base_arr("z", "row", n)
-        return Pre(s, [z], ghost={"s": s, "z": z, "n": n, "evals0": s.f["n_likelihood_evaluations"]})
+        return Pre(s, [z], ghost={"s": s, "z": z, "n": n, "evals0": s.f["n_likelihood_evaluations"], "identity": shape["precond"] == "identity"})
 
     def post(self, I, pre, r):
         p, g = I.path, pre.ghost
@@ -180,8 +193,9 @@ class MCMCLogProb(Contract):
             return
         i = z3.Int(fresh("row"))
         inb = z3.And(i >= 0, i < g["n"])
-        p.prove(z3.Implies(inb, r.at(i) == tempered_expected(None, z.at(i), mcmc=True)), f"{q}:C05:result[i] == L(x_i) + pi(x_i) + log|det dx/dz|_i (no proposal term, beta = 1)")
-        xi = TINV_X(z.at(i))
+        ident = g.get("identity", False)
+        p.prove(z3.Implies(inb, r.at(i) == tempered_expected(None, z.at(i), mcmc=True, identity=ident)), f"{q}:C05:result[i] == L(x_i) + pi(x_i) + log|det dx/dz|_i (no proposal term, beta = 1)")
+        xi = z.at(i) if ident else TINV_X(z.at(i))
         p.prove(z3.Implies(z3.And(inb, PI_ROW(xi) == X.NINF), z3.Not(X.is_fin(r.at(i)))), f"{q}:C05:zero prior never gives a finite log-density")
         SMCLogProb.count_obligations(self, I, pre)
 
